@@ -366,8 +366,18 @@ def Batch.hash (b : Batch) : Bytes :=
 def be64 (n : Nat) : Bytes := (List.range 8).map fun i => UInt8.ofNat (n / 256 ^ (7 - i) % 256)
 
 /-- `HashKey(i, blockHash)` of `order.Copy()` (the copy drops the order id) -/
-def orderKey (blockHash : Bytes) (i : Nat) (o : LimitOrder) : Bytes :=
-  sha256 (blockHash ++ be64 i ++ ({ o with id := [] } : LimitOrder).proto)
+def orderKeyInput (blockHash : Bytes) (i : Nat) (o : LimitOrder) : Bytes :=
+  blockHash ++ be64 i ++ ({ o with id := [] } : LimitOrder).proto
+
+/-- the shuffle/payout key of order `i`: the hash of `orderKeyInput`, paired with the index it was computed for.
+The real key is the hash string alone; the index is written into the hashed bytes at full 64-bit width
+(`binary.BigEndian.PutUint64(idxBz, uint64(index))`, pinned by `Canopy.C20.hashKey_source`), so the input determines
+the index (`orderKeyInput_index_injective`) and, SHA-256 being collision-free, so does the key. Carrying the index
+makes that explicit: two orders never share a payout slot, whatever their contents. -/
+abbrev OrderKey := Nat × Bytes
+
+def orderKey (blockHash : Bytes) (i : Nat) (o : LimitOrder) : OrderKey :=
+  (i, sha256 (orderKeyInput blockHash i o))
 
 /-! ## DEX: batches in the store -/
 
@@ -746,7 +756,7 @@ def orderReceipts (chain : Nat) : List LimitOrder → List Nat → State → Nat
       orderReceipts chain os rs.tail s x y
 
 /-- the AMM loop over the shuffled orders, capped per block -/
-def ammLoop : List (Bytes × LimitOrder) → Nat → Nat → Nat → List (Bytes × Nat) → M (Nat × Nat × List (Bytes × Nat))
+def ammLoop : List (OrderKey × LimitOrder) → Nat → Nat → Nat → List (OrderKey × Nat) → M (Nat × Nat × List (OrderKey × Nat))
   | [], _, x, y, res => .ok (x, y, res)
   | (k, o) :: rest, i, x, y, res =>
     if i ≥ Gen.Dex.MaxOrdersSettledPerBlock then .ok (x, y, res)
@@ -761,7 +771,7 @@ def ammLoop : List (Bytes × LimitOrder) → Nat → Nat → Nat → List (Bytes
           else ammLoop rest (i + 1) r.1 (y - dY) (res ++ [(k, dY)])
         else ammLoop rest (i + 1) x y (res ++ [(k, 0)])
 
-def payReceipts (chain : Nat) : List (Bytes × LimitOrder) → List (Bytes × Nat) → State → List Nat → M (State × List Nat)
+def payReceipts (chain : Nat) : List (OrderKey × LimitOrder) → List (OrderKey × Nat) → State → List Nat → M (State × List Nat)
   | [], _, s, acc => .ok (s, acc)
   | (k, o) :: rest, res, s, acc => do
     let out := (AM.get? res k).getD 0
@@ -774,7 +784,7 @@ def payReceipts (chain : Nat) : List (Bytes × LimitOrder) → List (Bytes × Na
 /-- `HandleDexBatchOrders`; `blockHash` is the hash of the block at `height − 1` -/
 def dexBatchOrders (s : State) (orders : List LimitOrder) (blockHash : Bytes) (x y chain : Nat) : M (State × Nat × Nat × List Nat) := do
   let keyed := (List.range orders.length).zip orders |>.map fun (i, o) => (orderKey blockHash i o, o)
-  let sorted := stableSort (fun a b => bytesLt a.1 b.1) keyed
+  let sorted := stableSort (fun a b => bytesLt a.1.2 b.1.2) keyed
   if x = 0 ∨ y = 0 then throw .InvalidLiquidityPool
   let (x, y, res) ← ammLoop sorted 0 x y []
   let (s, receipts) ← payReceipts chain keyed res s []
